@@ -1,15 +1,61 @@
 _LIBS = ["network", "eventx", "event", "util", "base"]
+_DICT = "harness/C15/dns.dict"
 TARGETS = {
-    "c15_reply_fuzz": {"src": "C15/reply_parser.cpp", "variant": "asan", "engine": "fuzz", "libs": _LIBS},
-    "c15_reply_rc":   {"src": "C15/reply_parser.cpp", "variant": "asan", "engine": "rc", "libs": _LIBS},
+    "c15_reply_fuzz":   {"src": "C15/reply_parser.cpp", "variant": "asan", "engine": "fuzz", "libs": _LIBS},
+    "c15_reply_rc":     {"src": "C15/reply_parser.cpp", "variant": "asan", "engine": "rc", "libs": _LIBS},
     "c15_lifecycle_rc": {"src": "C15/lookup_lifecycle.cpp", "variant": "asan", "engine": "rc", "libs": _LIBS},
 }
 PROP = {
     "subchecks": [
+        # (a) reply_parser, structure-aware generator (rapidcheck).  Must stay the FIRST rapidcheck sub-check named reply_parser:
+        # the *.txt regression inputs of (a) are replayed through it (their first line names the sub).
         {"target": "c15_reply_rc", "sub": "reply_parser",
-         "quick": {"cases": 1000, "max_size": 100, "workers": 4, "case_alarm": 60},
-         "thorough": {"cases": 1000, "max_size": 100, "workers": 4, "case_alarm": 60}},
+         "quick": {"cases": 6000, "max_size": 100, "workers": 4, "case_alarm": 60},
+         "thorough": {"cases": 300000, "max_size": 100, "workers": 4, "case_alarm": 60}},
+        # (b) lookup_lifecycle (rapidcheck + virtual clock + real UDP over loopback)
+        {"target": "c15_lifecycle_rc", "sub": "lookup_lifecycle",
+         "quick": {"cases": 2500, "max_size": 100, "workers": 4, "case_alarm": 60},
+         "thorough": {"cases": 100000, "max_size": 100, "workers": 4, "case_alarm": 60}},
+        # (a) reply_parser, libFuzzer (even workers start from corpus/C15/reply_parser, odd ones from an empty corpus).
+        # Non-termination is part of the property: a timeout-* artifact counts (25 s per datagram of <= 4 KiB is never load noise;
+        # the harness itself also fails any datagram that costs more than 1 s of CPU).
+        {"target": "c15_reply_fuzz", "sub": "reply_parser", "dict": _DICT, "timeout_is_violation": True,
+         "quick": {"runs": 100000, "max_len": 600, "workers": 4, "unit_timeout": 25},
+         "thorough": {"runs": 3000000, "max_len": 1500, "workers": 8, "unit_timeout": 25}},
     ],
-    "assumptions": [],
+    "assumptions": [
+        "(a) datagrams are at most 4096 bytes (UdpSocket's receive buffer: nothing longer reaches onUdpRecv); one server is configured, so the first server-failure reply completes the lookup with kAllDnsFail",
+        "(a) what a reply that is NOT well-formed by RFC 1035 does to the lookup is left free (ignored, kFail, kAllDnsFail, or kSuccess with part of the data) as long as everything reported is locatable in the datagram by the lenient reference reading; "
+        "equality is asserted only for RFC-conformant datagrams that are a plain reply to the question asked (QR, opcode 0, TC and Z clear, question echoed, class IN, answer owners on the CNAME chain, nothing after the last record)",
+        "(a) 'www' and 'www.' are one name (the spelling of a name that ends in a pointer to the root label is not fixed by the statement); A/CNAME records outside the answer section may but need not be reported",
+        "(b) adopted completion rule: a datagram is acceptable for a lookup iff it carries the lookup's id, has QR set and the lookup is outstanding when the datagram is read; RCODE 0 -> kSuccess with the reply's data, 3 -> kDomainError, "
+        "1 -> kFail, every other RCODE is a server failure which completes the lookup with kAllDnsFail only once EVERY configured server has sent one (a duplicate from one server does not stand in for another server); "
+        "the source address of a datagram is otherwise not part of the rule (all generated datagrams come from configured servers)",
+        "(b) the timeout is the documented 5 checks 1 s apart: asserted window = later than 4 s after request() and in the first loop pass at or after 5 s; the virtual clock advances in steps of at most 1 s, each followed by idle passes",
+        "(b) request ids are not reused within a history (at most 24 lookups); cancel() of the lookup whose callback is running, setDnsIPAddresses() with lookups outstanding and destroying the DnsRequest inside a callback are not generated",
+        "(b) loopback UDP keeps the order of datagrams sent to one socket; the harness waits (SO_MEMINFO on the client's socket) until each datagram has arrived before it runs the loop",
+    ],
 }
-META = {"design_ref": "DESIGN.md section 4, C15", "technique": "", "level_text": "", "level_note": ""}
+META = {
+    "design_ref": "DESIGN.md section 4, C15",
+    "technique": "coverage-guided fuzzing (libFuzzer) and property-based testing with a structure-aware generator (rapidcheck) of DnsRequest's reply parser against an independent, "
+                 "iterative RFC 1035 reference reader (differential containment / equality oracle, ASan/UBSan, exact-size datagram copies, pattern-initialised locals so that "
+                 "uninitialised reads surface as 0xAA data), plus model-based stateful PBT (rapidcheck) of lookup histories on a real event loop under a virtual monotonic clock "
+                 "(hook H1) with real UDP datagrams exchanged over loopback with scripted servers",
+    "level_text": "(a) Datagrams built from a DNS op language (canonical CNAME/A replies with and without compression; free-form questions and records of 12 types in all sections; names "
+                  "ending in pointers that go backward, into the middle of a name, forward, to themselves, into a loop through labels, to another pointer, into the header, outside the "
+                  "packet, names without terminator, reserved label types, labels with NUL and dots; RDLENGTH that lies; count fields inflated up to 65535; truncation at a generated offset "
+                  "and, for a share of the cases, at EVERY offset; overwritten bytes; raw bytes; ids that do and do not match; 0-3 byte datagrams while lookup 0xAAAA is outstanding) and "
+                  "libFuzzer mutations of a 267-file seed corpus produced by that generator are handed to DnsRequest::onUdpRecv (probe subclass) of a fresh DnsRequest with one outstanding lookup: "
+                  "it returns (no crash, no stack exhaustion, no sanitizer report, < 1 s CPU), calls back at most once and only for a datagram that carries the lookup's id with QR set, "
+                  "the status agrees with the RCODE, every reported address/ttl and cname/ttl is located in that datagram by the reference reader, and RFC-conformant plain replies are "
+                  "reported exactly. (b) Histories of up to 24 lookups against 1-3 loopback servers (requests, also from inside callbacks; cancels, also from inside callbacks, of "
+                  "outstanding / completed / never issued ids; replies valid / NXDOMAIN / SERVFAIL / FORMERR / REFUSED / NOTIMP / QR clear / unknown id from any server in any order; "
+                  "duplicated datagrams; datagrams sent while no lookup is outstanding; clock advances around the 4-5 s window): every callback runs exactly once, during the delivery of "
+                  "the first acceptable datagram with that datagram's data, or as kTimeout inside the window, never after cancel; no other datagram causes a callback; cancel() and "
+                  "isRunning() agree with the model after every step. Exploration only: no counter-example among N generated cases.",
+    "level_note": "Trusted: the harness's RFC 1035 reference reader and wire builder (dnsref.h), ASan/UBSan, -ftrivial-auto-var-init=pattern, Linux loopback UDP ordering, the virtual clock hook. "
+                  "Six genuine defects were found and are fixed by harness/C15/proposed-fixes/01..06 (regression inputs in corpus/C15/regress; the check reports them again if they return). "
+                  "Not asserted: what a malformed reply does to the lookup beyond containment; the text of the query; replies from addresses that are not configured servers; "
+                  "id reuse after 65535 lookups; re-entrant cancel of the running callback's own lookup.",
+}
